@@ -26,7 +26,7 @@ src, dst, p, suite, head, r2 = sys.argv[1:7]
 try: m = json.load(open(src))
 except Exception: m = {}
 m['property'] = p
-m['round'] = 2
+m['round'] = int(__import__('os').environ.get('ROUND', '2'))
 m['validated'] = {'base_commit': head, 'demo_on_pristine': 'exit 0', 'demo_with_patch': 'exit ' + r2, 'suite_with_patch': suite, 'valid': True,
                   'ran': 'tools/intake_mutant.sh: scratch worktree of /repo HEAD; demo; git apply; demo; pytest -n 2 tests; worktree removed'}
 json.dump(m, open(dst, 'w'), indent=1)
